@@ -652,3 +652,165 @@ pub fn nested_option_unwrap_panics(a: Option<Option<u8>>) -> u8 {
     }
     0
 }
+
+pub struct Id7(u8);
+impl TryFrom<u8> for Id7 {
+    type Error = ();
+    fn try_from(x: u8) -> Result<Self, ()> {
+        if x < 8 {
+            Ok(Id7(x))
+        } else {
+            Err(())
+        }
+    }
+}
+pub fn conv_unwrap_safe(x: u8) -> Id7 {
+    Id7::try_from(x & 7).unwrap()
+}
+pub fn conv_unwrap_panics(x: u8) -> Id7 {
+    Id7::try_from(x & 15).unwrap()
+}
+
+pub fn radix_safe(s: &str) -> Result<Id7, std::num::ParseIntError> {
+    if s.len() != 1 {
+        return Ok(Id7(0));
+    }
+    let d = u8::from_str_radix(s, 8)?;
+    Ok(Id7::try_from(d).unwrap())
+}
+pub fn radix_panics(s: &str) -> Result<Id7, std::num::ParseIntError> {
+    if s.len() != 1 {
+        return Ok(Id7(0));
+    }
+    let d = u8::from_str_radix(s, 16)?;
+    Ok(Id7::try_from(d).unwrap())
+}
+
+pub fn lz_shift_safe(x: u32) -> u32 {
+    if x == 0 {
+        return 0;
+    }
+    1 << (31 - x.leading_zeros())
+}
+pub fn lz_shift_panics(x: u32) -> u32 {
+    1 << (31 - x.leading_zeros())
+}
+
+pub fn sum_safe(s: &[i16; 64]) -> i32 {
+    s.iter().map(|v| i32::from(*v)).sum()
+}
+pub fn sum_panics(s: &[u8]) -> u8 {
+    s.iter().sum()
+}
+
+pub fn pad_safe(n: usize) -> usize {
+    if n > 1000 {
+        return 0;
+    }
+    n + 4 - n % 4
+}
+pub fn rem_sub_panics(n: usize) -> usize {
+    n % 4 - 1
+}
+
+pub fn closure_capture_safe(s: &[u8], k: u8) -> Vec<u8> {
+    let a = [0u8; 16];
+    let j = usize::from(k & 15);
+    s.iter().map(|_| a[j]).collect()
+}
+pub fn closure_capture_panics(s: &[u8], k: u8) -> Vec<u8> {
+    let a = [0u8; 16];
+    let j = usize::from(k & 31);
+    s.iter().map(|_| a[j]).collect()
+}
+
+pub fn capacity_panics(n: usize) -> Vec<u64> {
+    Vec::with_capacity(n)
+}
+pub fn capacity_safe(n: u16) -> Vec<u64> {
+    Vec::with_capacity(usize::from(n))
+}
+
+pub fn b2i_index_safe(a: &[u8; 2], x: u8) -> u8 {
+    a[usize::from(x > 5)]
+}
+pub fn b2i_index_panics(a: &[u8; 1], x: u8) -> u8 {
+    a[usize::from(x > 5)]
+}
+
+pub fn phi_hull_safe(a: &[u8; 8], c: bool) -> u8 {
+    let k = if c { 4 } else { 6 };
+    a[k + 1]
+}
+pub fn phi_hull_panics(a: &[u8; 7], c: bool) -> u8 {
+    let k = if c { 4 } else { 6 };
+    a[k + 1]
+}
+
+pub fn unwrap_or_index_panics(a: &[u8; 4], o: Option<u8>) -> u8 {
+    a[usize::from(o.unwrap_or(4))]
+}
+pub fn unwrap_or_index_safe(a: &[u8; 5], o: Option<u8>) -> u8 {
+    a[usize::from(o.unwrap_or(4) & 3)]
+}
+
+pub fn i16_sub_panics(a: i16, b: i16) -> i16 {
+    a - b
+}
+pub fn i16_sub_widened_safe(a: i16, b: i16) -> i32 {
+    i32::from(a) - i32::from(b)
+}
+pub fn neg_panics(a: i8) -> i8 {
+    -a
+}
+pub fn abs_panics(a: i32) -> i32 {
+    a.abs()
+}
+pub fn pow_panics(a: u32) -> u32 {
+    a.pow(3)
+}
+
+pub fn enum_match_unwrap_panics(o: Result<u8, u8>) -> u8 {
+    match o {
+        Err(_) => o.unwrap(),
+        Ok(v) => v,
+    }
+}
+pub fn enum_match_unwrap_safe(o: Result<u8, u8>) -> u8 {
+    match o {
+        Ok(_) => o.unwrap(),
+        Err(v) => v,
+    }
+}
+
+pub fn last_of_nonempty_safe(s: &[u8]) -> u8 {
+    if s.is_empty() {
+        return 0;
+    }
+    *s.last().unwrap()
+}
+pub fn last_of_maybe_empty_panics(s: &[u8]) -> u8 {
+    *s.last().unwrap()
+}
+
+pub fn split_at_safe(s: &[u8]) -> u8 {
+    if s.len() < 3 {
+        return 0;
+    }
+    let (a, b) = s.split_at(3);
+    a[2] ^ (b.len() as u8)
+}
+pub fn split_at_panics(s: &[u8]) -> u8 {
+    let (a, _) = s.split_at(3);
+    a[0]
+}
+
+fn helper_as_value(o: usize) -> u8 {
+    [1u8, 2, 3, 4][o]
+}
+pub fn helper_used_as_value_panics(s: &[usize]) -> Vec<u8> {
+    let direct = helper_as_value(2);
+    let mut v: Vec<u8> = s.iter().copied().map(helper_as_value).collect();
+    v.push(direct);
+    v
+}
